@@ -22,7 +22,13 @@ def check_metric(run, name, ctor, kind, info, C, T, timeout):
   h = jh.Harness(run, name, timeout)
   ctx = sj.Ctx()
   row = mc.sym_row(kind, C, T, '')
+  for j in info.get('ninf_at', ()):        # a -inf score at these classes
+    row[0][j] = sj.NINF
+  shown = name + ('[-inf@%s]' % (info['ninf_at'],) if info.get('ninf_at') else '')
+  h = jh.Harness(run, shown, timeout)
   assum = mc.row_domain(*row, C)
+  if 'target_is' in info:
+    assum = assum + [row[1][()] == info['target_is']]
   try:
     metric = ctor()
     stat = mc.eval_example(metric, row, ctx)
@@ -41,7 +47,8 @@ def check_metric(run, name, ctor, kind, info, C, T, timeout):
   else:
     for idx in np.ndindex(*a.shape):
       goals.append(('accum%s' % (list(idx),), sj.same(mc.as_real(a[idx]), mc.as_real(ra[idx]))))
-      goals.append(('accum-finite%s' % (list(idx),), sj.finite(mc.as_real(a[idx]))))
+      if not info.get('ninf_at'):
+        goals.append(('accum-finite%s' % (list(idx),), sj.finite(mc.as_real(a[idx]))))
   if (w is None) != (rw is None):
     goals.append(('stat-kind', False))
   elif w is not None:
@@ -55,7 +62,8 @@ def check_metric(run, name, ctor, kind, info, C, T, timeout):
     rres = mc.result_of(ra, rw)
     for idx in np.ndindex(*res.shape):
       goals.append(('result%s' % (list(idx),), sj.same(res[idx], rres[idx])))
-      goals.append(('result-finite%s' % (list(idx),), sj.finite(res[idx])))
+      if not info.get('ninf_at'):
+        goals.append(('result-finite%s' % (list(idx),), sj.finite(res[idx])))
   except Exception as e:   # pylint: disable=broad-except
     if jh.engine_fault(e):
       raise
@@ -66,7 +74,8 @@ def check_metric(run, name, ctor, kind, info, C, T, timeout):
     nmg, model = bad[0]
     pred, tgt, dom = row
     if model is not None:
-      data = {'name': name, 'C': C, 'T': T, 'kind': kind, 'pred': sj.model_array(model, pred).tolist(),
+      data = {'name': name, 'C': C, 'T': T, 'kind': kind, 'info': {k: v for k, v in info.items() if k in ('ninf_at', 'target_is')},
+              'pred': [(v if np.isfinite(v) else None) for v in np.asarray(sj.model_array(model, pred)).reshape(-1)] if info.get('ninf_at') else sj.model_array(model, pred).tolist(),
               'tgt': sj.model_array(model, tgt, np.int64).tolist(), 'dom': int(sj.model_value(model, dom[()]))}
     else:
       data = {'name': name, 'C': C, 'T': T, 'kind': kind, 'pred': np.zeros(pred.shape).tolist(),
@@ -109,8 +118,11 @@ def replay(data):
   metric = ctor()
   if data.get('raises'):
     return True, 'constructor/evaluate raises'
-  pred = np.asarray(data['pred'], dtype=np.float64)
+  pred = np.asarray([(-np.inf if v is None else v) for v in data['pred']], dtype=np.float64).reshape((C,) if kind == 'cls' else (T, C)) \
+      if data.get('info', {}).get('ninf_at') else np.asarray(data['pred'], dtype=np.float64)
   tgt = np.asarray(data['tgt'], dtype=np.int32)
+  if data.get('info'):
+    info = dict(info, **data['info'])
   try:
     stat = metric.evaluate_example({'y': jnp.asarray(tgt), 'domain_id': jnp.asarray(data['dom'], jnp.int32)}, jnp.asarray(pred))
   except Exception as e:   # pylint: disable=broad-except
@@ -120,7 +132,7 @@ def replay(data):
   sj.NUMERIC_MODE[0] = True
   prow = np.empty(pred.shape, dtype=object)
   for idx in np.ndindex(*pred.shape):
-    prow[idx] = Fraction(float(pred[idx]))
+    prow[idx] = Fraction(float(pred[idx])) if np.isfinite(pred[idx]) else (sj.NINF if pred[idx] < 0 else sj.PINF)
   trow = np.empty(tgt.shape, dtype=object)
   for idx in np.ndindex(*tgt.shape):
     trow[idx] = int(tgt[idx])
@@ -157,7 +169,7 @@ def replay(data):
 
 def check(run):
   tier = run.tier
-  timeout = 20.0 if tier == 'quick' else 120.0
+  timeout = 60.0 if tier == 'quick' else 240.0
   C, T = (3, 2) if tier == 'quick' else (4, 3)
   grid = mc.metric_grid(C, T, tier)
   run.functions += ['fedjax.core.metrics.<every Metric class>.evaluate_example / zero', 'MeanStat/SumStat.new/result',
